@@ -73,7 +73,7 @@ def run(c):
         meta[cid] = data
     seen_chars = set()
     for lane in lanes:
-        obs = core.run_cases(cases, lane=lane, per_case_timeout=60)
+        obs = core.run_cases(cases, lane=lane, per_case_timeout=60, poison="b64")
         for cs in cases:
             o = obs.get(cs.id)
             data = meta[cs.id]
